@@ -292,7 +292,7 @@ func cmdCheck(args []string) {
 				violations++
 				os.MkdirAll(replayDir, 0o755)
 				file := filepath.Join(replayDir, "replay."+sanitize(rp.Name)+".json")
-				writeJSON(file, map[string]interface{}{"property": *prop, "replay": rp, "replayed": true, "failing_input": rp.What, "observed": truncate(out, 8000)})
+				writeJSON(file, map[string]interface{}{"property": *prop, "replay": rp, "replayed": true, "failing_input": firstViolationLine(out), "scenario": rp.What, "observed": truncate(out, 8000)})
 				fmt.Printf("VIOLATION property=%s replay=%s scenario=%s (real code run: test %s fails)\n", *prop, file, rp.Name, rp.Test)
 			}
 		}
